@@ -78,9 +78,9 @@ CHECKS = {
     "C01": {
         "engine": "input-enum", "category": "model_checking", "design_ref": "DESIGN.md §2 C01",
         "technique": "bounded-exhaustive enumeration of wikitext over the full lexeme alphabet (flat, embedding contexts, template universes, nesting to depth 40, 12 languages) plus pumped growth measurement",
-        "text": SMALL_SCOPE + "families flat (SIGMA^<=2 with/without database, SIGMA_CORE^3), ctx (32 contexts x SIGMA), templ (20 template bodies x l1 x l2 x call/arg), nest (14 constructs x depths to 40 x closed/open/crossed), "
-                "lang (12 sites), pump (every lexeme x frames, n=32/128/512, growth exponent); oracle: returns an Article, no exception of any kind, watchdog not hit, exponent <= 3.3.",
-        "note": "182-lexeme alphabet in mc/gen/wikitext.py; polynomial time is measured on pumped families, not proved; a pumped lexeme that recurses at n>=128 is a nesting opener and counted as outside the property (depth > 40).",
+        "text": SMALL_SCOPE + "families flat (SIGMA^<=2 with/without database, SIGMA_CORE^3), ctx (42 contexts x SIGMA, incl. inside nowiki/pre/source/math and a heading line across table cells), tagattr (every tag and wiki-table position x attribute x value spelling), templ (template bodies incl. tag-routed recursion x l1 x l2 x call/arg, swept over three caller stack depths), nest (14 constructs x depths to 40 x closed/open/crossed), "
+                "lang (12 sites; every namespace name any site knows as a link prefix on every site, with/without database), pump (every lexeme x frames, n=32/128/512, growth exponent); oracle: returns an Article, no exception of any kind, watchdog not hit, exponent <= 3.3.",
+        "note": "alphabet of about 240 lexemes in mc/gen/wikitext.py (incl. forged strip markers, malformed numeric references, numbers that select an amount of work); polynomial time is measured on pumped families, not proved; a pumped lexeme that recurses at n>=128 is a nesting opener and counted as outside the property (depth > 40).",
     },
     "C05": {
         "engine": "input-enum", "category": "model_checking", "design_ref": "DESIGN.md §2 C05/C06",
